@@ -111,6 +111,7 @@ class Unit:
         self.type_done = {}
         self.shim_need = set()
         self.class_consts = {}    # (class key, name) -> node
+        self.enum_types = set()   # qualified names of enumeration types (values are rendered as int: the enumerator's position)
         self._index()
 
     # ------------------------------------------------------------ indexing
@@ -136,6 +137,8 @@ class Unit:
                 for c in n.get('inner', []):
                     walk(c, ns + (n.get('name', ''),), cls, dep, k)
                 return
+            if k == 'EnumDecl' and n.get('name'):
+                self.enum_types.add('::'.join(ns + ((cls.key(),) if cls else ()) + (n['name'],)))
             if k == 'ClassTemplateDecl':
                 for c in n.get('inner', []):
                     if c.get('kind') == 'CXXRecordDecl':
@@ -435,6 +438,8 @@ class Unit:
             raise ExtractionError('pointer type %r' % t)
         if n in BUILTIN:
             return BUILTIN[n]
+        if n in self.enum_types and not t.args:
+            return 'int'
         m = self.mangle(t)
         if m not in self.type_done:
             self.type_done[m] = None      # guards recursion
@@ -486,7 +491,9 @@ class Unit:
                     fields.append('%s %s;' % (self.cty(ft), c['name']))
                 if c['kind'] == 'CXXRecordDecl' and c.get('name') == rec.get('name'):
                     continue
-            if any(b for b in rec.get('bases', []) if 'Operator' not in b['type']['qualType']):
+            # (bases without data members: the Operator tag class, and the pure interface ISolver of the abstract solver)
+            if any(b for b in rec.get('bases', []) if 'Operator' not in b['type']['qualType']
+                   and not ('ISolver<' in b['type']['qualType'] and t.name.startswith('bspline_verif_abs::'))):
                 raise ExtractionError('record %s has unexpected bases' % t.key())
             if not fields:
                 fields = ['char bs_empty;']
@@ -531,6 +538,11 @@ class Unit:
                 if not any(c.get('kind') == 'CompoundStmt' for c in d.get('inner', [])):
                     # declared-only members of the driver's abstract operator classes: abstract callees
                     if 'bspline_verif_abs' in ns and d.get('name') == 'transform' and pk == 'FunctionTemplateDecl':
+                        d['_abstract'] = True
+                        out.append(d)
+                    elif 'bspline_verif_abs' in ns and cls is not None and not d.get('isImplicit') and \
+                            d.get('kind') in ('CXXMethodDecl', 'CXXConstructorDecl') and not d.get('explicitlyDefaulted'):
+                        # declared-only members of the driver's abstract classes (the linear solver of interpolate)
                         d['_abstract'] = True
                         out.append(d)
                     continue
@@ -1229,6 +1241,27 @@ class ExprMixin:
             raise NotLvalue()
         raise NotLvalue()
 
+    def abstract_put(self, n):
+        """'f__put(obj, args, %s)' if n is a call of an abstract member that returns a non-const reference"""
+        s = strip(n)
+        if s['kind'] != 'CXXMemberCallExpr':
+            return None
+        ks = kids(s)
+        callee = ks[0]
+        mid = callee.get('referencedMemberDecl')
+        if mid not in self.u.fn_by_id:
+            return None
+        fi2 = self.u.fn_by_id[mid]
+        if not fi2.done:
+            self.u.get_info(fi2)
+        pf = getattr(fi2, 'put_fn', None)
+        if pf is None:
+            return None
+        obj = self.obj(kids(callee)[0], callee.get('isArrow'))
+        args = [self.expr(a) for a in ks[1:]]
+        self.fi.calls.add(pf.cname)
+        return '%s(%s, %%s)' % (pf.cname, ', '.join([obj] + args))
+
     def lval_or_tmp(self, n):
         """an expression usable as the object of a field access"""
         try:
@@ -1420,6 +1453,14 @@ class ExprMixin:
         if k == 'BinaryOperator':
             op = n['opcode']
             if op == '=':
+                put = self.abstract_put(ks[0])
+                if put is not None:
+                    rv = self.expr(ks[1])
+                    txt = put % rv
+                    if discard:
+                        self.emit(txt + ';')
+                        return ''
+                    raise ExtractionError('%s: value of an assignment through an abstract accessor is used' % self.fi.cname)
                 lv = self.lval(ks[0])
                 rv = self.expr(ks[1])
                 self.note_write(lv)
@@ -1813,6 +1854,8 @@ class CallMixin:
                 comps = self.components(et)
                 self.emit('#if BS_CAP <= 16')
                 self.emit('for (size_t bs_f = 0; bs_f < BS_CAP; bs_f++) %s.d[bs_f] = %s;' % (tmp, vt))
+                self.emit('#elif defined(BS_FILL_ARBITRARY)')
+                self.emit('/* the fill values are left arbitrary: a weaker assumption, chosen by a block whose claim does not depend on them */')
                 self.emit('#else')
                 self.emit('__CPROVER_assume(__CPROVER_forall { size_t bs_f; (bs_f < BS_CAP) ==> (%s) });' %
                           ' && '.join('%s.d[bs_f]%s == %s%s' % (tmp, c, vt, c) for c in comps))
@@ -2223,14 +2266,32 @@ def _unit_get_info_inner(self, fi):
     if fi.decl.get('_abstract'):
         fi.abstract = True
         fi.mutated, fi.may_throw, fi.returns_self, fi.rkind, fi.trivial_getter = [], False, False, 'value', None
-        if fi.ret is None:
-            raise ExtractionError('%s: abstract function without a spelled return type' % fi.cname)
+        if fi.is_ctor:
+            fi.rkind = 'ctor'
+        elif fi.ret is None:
+            if getattr(fi, 'ret_auto', False):
+                raise ExtractionError('%s: abstract function without a spelled return type' % fi.cname)
+            fi.rkind = 'void'       # (an abstract member that returns nothing: no visible effect, by assumed contract)
         fi.body = None
         fi.sig = tr.signature()
         fi.rstruct = None
         fi.in_progress = False
         fi.done = True
         self.order.append(fi)
+        if fi.ret is not None and fi.ret.ref and not fi.ret.const and not fi.is_ctor:
+            # a member that returns a non-const reference: assignments through it become calls of a second abstract
+            # function <name>__put(self, args..., value)
+            pf = FnInfo(fi.decl, fi.cname + '__put')
+            pf.params = list(fi.params) + [('bs_v', fi.ret.base(), None)]
+            pf.is_method, pf.is_static, pf.is_const, pf.is_ctor, pf.cls = fi.is_method, fi.is_static, True, False, fi.cls
+            pf.ret, pf.rkind, pf.abstract, pf.body, pf.rstruct, pf.src = None, 'void', True, None, None, fi.src
+            pf.mutated, pf.may_throw, pf.returns_self, pf.trivial_getter, pf.done = [], False, False, None, True
+            ps = (['%s self' % self.cty(fi.cls)] if fi.is_method and not fi.is_static else []) + \
+                ['%s %s' % (self.cty(t.base()), nm) for nm, t, pid in pf.params]
+            pf.sig = 'void %s(%s)' % (pf.cname, ', '.join(ps))
+            self.fn_by_cname[pf.cname] = pf
+            self.order.append(pf)
+            fi.put_fn = pf
         return fi
     fi.mutated, fi.may_throw, fi.returns_self = [], False, False
     fi.rkind = 'value'
